@@ -67,9 +67,7 @@ def acl_from(rnd, rules, skip=30, seen_keys=None):
     return out
 
 
-@st.composite
-def _cases(draw):
-    rnd = draw(urandoms())
+def _gen_from(rnd):
     vendor = rnd.choice(VENDORS)
     rules = RL.gen_rules(rnd, heads=RL.HEADS + ["interface", "interfaces"], opts={"logics": ("common.undo_redo",), "rewrite": False})
     ctx = RL.Ctx(rules)
@@ -84,6 +82,16 @@ def _cases(draw):
     return {"vendor": vendor, "rules": rules, "old": RL.plain(old), "new": RL.plain(new), "acls": acls,
             "acl_indents": [rnd.choice([0, 0, 4, 8]) for _ in acls]}
 
+
+@st.composite
+def _cases(draw):
+    return _gen_from(draw(urandoms()))
+
+
+def fuzz_decode(fdp):
+    """coverage-guided tier: the same generator driven by fuzzer-chosen bytes (vf/core/fuzz_target.py)"""
+    from vf.model.rnd import FdpRandom
+    return _gen_from(FdpRandom(fdp))
 
 def strategy(tier):
     return _cases()
